@@ -135,6 +135,17 @@ PROPS = {
             dict(name="TestFailuresSQLite", quick=200, thorough=2500, shards_thorough=4, shrinktime="15s"),
         ],
     ),
+    "C15": dict(
+        pkg="c15", level="exploration",
+        technique="complete enumeration of the shape x API product plus property-based sampling (rapid) of values, noise and option order; oracle = agreement of every name-deriving path with EventType",
+        level_text="The 10 event shapes x 5 name-deriving APIs (x both option orders) are enumerated completely on every run, and sampled with generated ids, strings, interleaved events of other shapes; each typed API must select exactly the stored events published as T.",
+        level_note="TypeNamer implementations whose name depends on the value are not considered (a static type then has no single name).",
+        assumptions=COMMON_ASSUME,
+        tests=[
+            dict(name="TestProduct", quick=1, thorough=1, shards_thorough=1, rapid=False),
+            dict(name="TestRandom", quick=3000, thorough=40000, shards_thorough=8),
+        ],
+    ),
 }
 
 HOOK_COMMITS = ["99604d0"]
